@@ -184,7 +184,13 @@ func cmdC02(args []string) {
 		kinds := []Val{{T: "narr"}, {T: "null"}, {T: "arr", E: []Val{}}, nest(3, Val{T: "narr"}), nest(4, Val{T: "int", P: []byte("7")}),
 			{T: "arr", E: []Val{{T: "narr"}, {T: "narr"}, {T: "null"}}}, {T: "bulk", P: []byte{}}, {T: "err", P: []byte("e")}}
 		for ki, kv := range kinds {
-			for _, run := range []int{1, 7, 8, 9, 17, 40} {
+			runs := []int{1, 7, 8, 9, 17, 40}
+			if ki < 4 {
+				// beyond the parser's nesting limit (10000): per-stream bookkeeping that an early return forgets to undo
+				// (a depth counter, a pooled buffer) only shows after that many values of the kind
+				runs = append(runs, 10001, 12000)
+			}
+			for _, run := range runs {
 				var st []byte
 				for k := 0; k < run; k++ {
 					st = append(st, encVal(kv)...)
@@ -198,7 +204,11 @@ func cmdC02(args []string) {
 				for i := range one {
 					one[i] = 1
 				}
-				for _, chunks := range [][]int{{len(st)}, one, randPartition(rng, len(st))} {
+				deliveries := [][]int{{len(st)}, one, randPartition(rng, len(st))}
+				if run > 1000 {
+					deliveries = [][]int{{len(st)}, randPartition(rng, len(st))}
+				}
+				for _, chunks := range deliveries {
 					ev := chunkedEvent(st, chunks)
 					ev["src"] = "history"
 					emit(ev)
